@@ -175,7 +175,9 @@ def c10(r):
             ev["h"] = ev.get("h", 0) + 1
             return ev
         return None
-    r.tlc_strict("QueueStrict", t, "bound", "Bound", to_const=lambda b: 1000000 if not b else b, selftest=corrupt)
+    # (runs in which the bound changes at a restart are outside the tier-I module, whose bound is a constant)
+    r.tlc_strict("QueueStrict", t, "bound", "Bound", to_const=lambda b: 1000000 if not b else b, selftest=corrupt,
+                 accept=lambda ev: not str(ev.get("run", "")).startswith("rebound/"))
 
 
 def c11(r):
